@@ -54,7 +54,7 @@ TRunStart ==
     /\ pc' = [t \in Threads |-> "idle"] /\ mutex' = NoThread /\ idle' = <<>> /\ used' = {}
     /\ has' = [t \in Threads |-> NoArena] /\ fresh' = [t \in Threads |-> FALSE]
     /\ blocks' = <<>> /\ chunks' = <<>> /\ round' = [t \in Threads |-> 0] /\ phase' = 0 /\ alive' = TRUE
-    /\ nseq' = 0 /\ peak' = 0 /\ speak' = 0 /\ written' = {} /\ everCreated' = 0
+    /\ nseq' = 0 /\ peak' = 0 /\ speak' = 0 /\ written' = {} /\ everCreated' = 0 /\ leaked' = {}
     /\ seen' = <<>> /\ nfrees' = 0 /\ Adv
 
 Keep == UNCHANGED <<seen, nfrees>> /\ Adv
@@ -90,6 +90,7 @@ TDropWant == Is("drop_want") /\ DropCall(ev.t) /\ Keep
 TDropCs   == Is("drop_cs")   /\ DropLock(ev.t) /\ ev.seq = nseq + 1 /\ ev.idle = Len(idle) /\ Keep
 TDropPost == Is("drop_post") /\ DropPush(ev.t) /\ Keep
 TDropDone == Is("drop_done") /\ DropReturn(ev.t) /\ Keep
+TForget   == Is("forget")    /\ ev.arena = has[ev.t] /\ Forget(ev.t) /\ Keep
 
 IdleObsOK(arenas, twins) ==
     /\ Len(arenas) = Len(idle) /\ Len(twins) = Len(idle)
@@ -124,6 +125,7 @@ TPoolReset ==
     /\ LedgerClean(ev.ledger)
     /\ ev.ledger.total_frees = nfrees + SumTo([j \in DOMAIN idle |-> ev.before[j].n - 1], Len(idle))
     /\ nfrees' = ev.ledger.total_frees
+    /\ ev.damaged = <<>>                      \* what lives in leaked arenas survives the reset
     /\ seen' = [a \in DOMAIN seen |-> IF InIdle(a) THEN ObsRec(AfterOf(a)) ELSE seen[a]]
     /\ Adv
 
@@ -137,6 +139,7 @@ TPoolResetToStart ==
           /\ ev.ledger.frees[j] = ev.ledger_before.frees[j]
           /\ ev.ledger.allocs[j] = ev.ledger_before.allocs[j]
     /\ LedgerClean(ev.ledger) /\ ev.ledger.total_frees = nfrees
+    /\ ev.damaged = <<>>
     /\ seen' = [a \in DOMAIN seen |-> IF InIdle(a) THEN ObsRec(AfterOf(a)) ELSE seen[a]]
     /\ UNCHANGED nfrees /\ Adv
 
@@ -146,12 +149,17 @@ TPoolDrop ==
     /\ \A j \in DOMAIN idle :
           /\ ev.ledger.frees[j] - ev.ledger_before.frees[j] = chunks[idle[j]]
           /\ ev.ledger.frees[j] = ev.ledger.allocs[j]
-    /\ LedgerClean(ev.ledger) /\ ev.ledger.outstanding = 0
-    /\ \A j \in 1..ev.ever : ev.ledger_all.frees[j] = ev.ledger_all.allocs[j]
+    /\ LedgerClean(ev.ledger)
+    /\ Range(ev.leaked) = leaked
+    /\ \A j \in 1..ev.ever :                     \* arena ids are 1..ever (ids of failed creations have no grants)
+          IF j \in leaked THEN ev.ledger_all.allocs[j] - ev.ledger_all.frees[j] = chunks[j]   \* nothing released since
+                          ELSE ev.ledger_all.frees[j] = ev.ledger_all.allocs[j]
+    /\ ev.ledger.outstanding = SumTo([j \in 1..ev.ever |-> IF j \in leaked THEN chunks[j] ELSE 0], ev.ever)
+    /\ ev.damaged = <<>>                      \* blocks in leaked arenas outlive the pool
     /\ Keep
 
 TNext == \/ TRunStart \/ TGetWant \/ TGetCs \/ TCreate \/ TGetPost \/ TGetFail \/ TGetDone \/ TUse
-         \/ TDropWant \/ TDropCs \/ TDropPost \/ TDropDone
+         \/ TDropWant \/ TDropCs \/ TDropPost \/ TDropDone \/ TForget
          \/ TCheck \/ TPoolReset \/ TPoolResetToStart \/ TPoolDrop
 
 TSpec == TInit /\ [][TNext]_tvars
